@@ -94,6 +94,8 @@ def mu_mix_owners(w, home):
             s = {home}
     elif o == 'trylock-blocked':
         s = {'C02'}
+    elif o == 'asleep-past-deadline':
+        s = {'C05'}
     elif o in ('return-reason', 'muwait-result'):
         s = {'C05'}
         if 'wait_n' in key:
